@@ -569,7 +569,7 @@ class ItemList:
         if ids and (self._ids is not None or self._vocab is not None):
             cols["item_id"] = self.ids()
         if numbers and (self._numbers is not None or self._vocab is not None):
-            cols["item_num"] = self.numbers()
+            cols["item_num"] = self.numbers(missing="negative")
         # we need to have numbers or ids, or it makes no sense
         if "item_id" not in cols and "item_num" not in cols:
             if ids and not numbers:
@@ -722,7 +722,7 @@ class ItemList:
         if self._numbers is not None:
             state["numbers"] = self._numbers.numpy()
         elif self._vocab is not None:
-            state["numbers"] = self.numbers()
+            state["numbers"] = self.numbers(missing="negative")
 
         state.update(("field_" + k, v.numpy()) for (k, v) in self._fields.items())
         return state
